@@ -268,6 +268,16 @@ theorem real_main_selects_have_done : mainSelectsHaveDone ops = true := by decid
 theorem real_exit_cancels :
     exitCancelsCore = true ∧ exitCancelsPM = true ∧ exitCancelsPath = true ∧
     wgCountsPM = true ∧ wgCountsPath = true := by decide
+/-- every return after a Lock without defer is preceded by the Unlock (core and hls server/muxer files);
+`muxer.initialize` hands its mutex to `muxer.runInner`, which releases it on every exit -/
+theorem real_unlock_on_all_paths : unlockOnAllPaths lockFns = true := by decide
+/-- Finding class `hlsMuxerLockCycle`: `muxer.runInner` holds `muxer.mutex` (handed over by
+`muxer.initialize`) while it calls `pathManager.AddReader`. -/
+def knownLockAcross : List (Nat × Nat) := [(LF_hls_muxer_runInner, MU_hls_muxer_mutex)]
+
+/-- no mutex is held across a blocking request to a loop — except the recorded pair -/
+theorem real_lock_across_request_known :
+    (lockAcrossRequest lockFns).all knownLockAcross.contains = true := by decide
 theorem real_levels_ok : levelsOK T = true := by decide
 theorem real_shutdown_ok : shutdownOK T = true := by decide
 
@@ -284,6 +294,110 @@ theorem c40_shutdown_terminates (S : ShutdownSys T) (σ : Config) (hI : Inv T σ
     (hC : AllCancelled σ) :
     ∃ τ, Steps S σ τ ∧ ∀ a, τ.status a = .exited :=
   shutdown_terminates S real_levels_ok real_shutdown_ok (S.fuel σ) σ (Nat.le_refl _) hI hC
+
+/-! ## the HLS server: a genuine wait cycle outside the three core files
+
+`pathManager.run` → `hls.Server.PathReady` (request to the HLS loop, only the HLS Done arm) →
+the HLS loop answering an API/metrics query → `muxer.apiItem` / `apiSessionsList` / … (`muxer.mutex.RLock`,
+the mutex `muxer.initialize` locked and `muxer.runInner` still holds) → `muxer.runInner` →
+`pathManager.AddReader` (request to `pathManager.run`).  Found by the stress harness on the unmodified
+code; the lock half is the regenerated fact `lockAcrossRequest`. -/
+
+/-- the full deadlock-freedom statement for a table -/
+def NoWaitCycleFull (T : List WaitRow) : Prop :=
+  ∀ σ : Config, Inv T σ → ∀ a, ¬ Relation.TransGen (stuckEdge σ) a a
+
+/-- the three waits of the cycle (hand-written: code outside the three core files) -/
+def hlsCycleRows : List WaitRow :=
+  [⟨.pm, .call, .hls, false, true, false⟩,      -- pathManager.run: s.chPathReady <- pa | <-s.ctx.Done()
+   ⟨.hls, .call, .muxer, false, false, false⟩,  -- HLS loop: muxer.mutex.RLock() (no escape)
+   ⟨.muxer, .call, .pm, false, true, false⟩]    -- muxer.runInner: pm.chAddReader <- req | <-pm.ctx.Done()
+
+def hlsCycle : Config where
+  status := fun a =>
+    if a = 1 then .blocked ⟨.pm, .call, .hls, false, true, false⟩ 2
+    else if a = 2 then .blocked ⟨.hls, .call, .muxer, false, false, false⟩ 3
+    else if a = 3 then .blocked ⟨.muxer, .call, .pm, false, true, false⟩ 1
+    else .running
+  cls := fun a => if a = 1 then .pm else if a = 2 then .hls else if a = 3 then .muxer else .client
+  cancelled := fun _ => false
+
+/-- **witness**: with the HLS rows the full statement is false — three goroutines, each stuck on the
+next, nothing cancelled -/
+theorem hls_cycle_witness : ¬ NoWaitCycleFull (T ++ hlsCycleRows) := by
+  intro h
+  have hI : Inv (T ++ hlsCycleRows) hlsCycle := by
+    refine ⟨?_, ?_, ?_, ?_, ?_, ?_⟩
+    · intro a w b hs
+      simp only [hlsCycle] at hs
+      split at hs
+      · rename_i h1; cases hs; subst h1; simp [hlsCycleRows, hlsCycle]
+      · split at hs
+        · rename_i h2; cases hs; subst h2; simp [hlsCycleRows, hlsCycle]
+        · split at hs
+          · rename_i h3; cases hs; subst h3; simp [hlsCycleRows, hlsCycle]
+          · cases hs
+    · intro a w b hs hk
+      simp only [hlsCycle] at hs
+      split at hs
+      · cases hs; cases hk
+      · split at hs
+        · cases hs; cases hk
+        · split at hs
+          · cases hs; cases hk
+          · cases hs
+    · intro a w b hs hk
+      simp only [hlsCycle] at hs
+      split at hs
+      · cases hs; cases hk
+      · split at hs
+        · cases hs; cases hk
+        · split at hs
+          · cases hs; cases hk
+          · cases hs
+    · intro a w b hs hk
+      simp only [hlsCycle] at hs
+      split at hs
+      · cases hs; cases hk
+      · split at hs
+        · cases hs; cases hk
+        · split at hs
+          · cases hs; cases hk
+          · cases hs
+    · intro b hs
+      simp only [hlsCycle] at hs
+      split at hs
+      · cases hs
+      · split at hs
+        · cases hs
+        · split at hs <;> cases hs
+    · intro b hs
+      simp only [hlsCycle] at hs
+      split at hs
+      · cases hs
+      · split at hs
+        · cases hs
+        · split at hs <;> cases hs
+  have e12 : stuckEdge hlsCycle 1 2 := ⟨⟨_, rfl, by decide⟩, by decide⟩
+  have e23 : stuckEdge hlsCycle 2 3 := ⟨⟨_, rfl, by decide⟩, by decide⟩
+  have e31 : stuckEdge hlsCycle 3 1 := ⟨⟨_, rfl, by decide⟩, by decide⟩
+  exact h hlsCycle hI 1 (.tail (.tail (.single e12) e23) e31)
+
+/-- no level function can order these rows: the decided condition fails -/
+example : levelsOK (T ++ hlsCycleRows) = false := by decide
+
+/-- the `_fixed` variant: once the HLS loop no longer waits for a starting muxer's mutex (proposed fix:
+requests wait on a `ready` channel, API queries never block), the remaining two rows fit the level
+argument, so `no_wait_cycle` and `stuck_chain_ends` cover them -/
+def hlsRowsFixed : List WaitRow :=
+  [⟨.pm, .call, .hls, false, true, false⟩, ⟨.muxer, .call, .pm, false, true, false⟩,
+   ⟨.muxer, .awaitReply, .pm, false, false, false⟩]
+
+theorem hls_fixed_levels_ok : levelsOK (T ++ hlsRowsFixed) = true := by decide
+
+theorem hls_fixed_no_wait_cycle {σ : Config} (hI : Inv (T ++ hlsRowsFixed) σ) (a : Nat) :
+    ¬ Relation.TransGen (stuckEdge σ) a a :=
+  no_wait_cycle hI hls_fixed_levels_ok a
 
 /-! ## non-vacuity and sharpness -/
 
